@@ -223,7 +223,7 @@ pub fn run(ctx: &mut Ctx) {
     if ctx.family_active("build") {
         let mut idx = 0u64;
         for &op in &NAMED_OPCODES {
-            for &rc in &NAMED_RCODES_LOW {
+            for rc in NAMED_RCODES_LOW.iter().copied().chain([16u16]) {
                 for k in 0..128u16 {
                     for reply in [false, true] {
                         idx += 1;
@@ -246,7 +246,8 @@ pub fn run(ctx: &mut Ctx) {
                             p.set_flags(bridge::lib_flags(f));
                             p.build_bytes_vec()
                         });
-                        let want = hdr(id, f | if reply { 0x8000 } else { 0 } | (op << 11) | rc, [0; 4]);
+                        // BADVERS (16) needs EDNS for its upper bits; the header only ever carries the low four
+                        let want = hdr(id, f | if reply { 0x8000 } else { 0 } | (op << 11) | (rc & 0xF), [0; 4]);
                         match r {
                             Err(pn) => ctx.panic_violation("build header", &pn, case()),
                             Ok(Err(e)) => ctx.violation("build-header", "build-header-failed", format!("{:?}", e), case()),
